@@ -736,7 +736,10 @@ def r_stride_iter(F, R, cat=None):
         ok = False
         for o in c.org.local(0):
             t = tree(c, o)
-            if t[0] == "agg" and t[1].startswith("StrideIter"):
-                ok = t[2][0] == ("place", b.key, ("arg", 1), ()) and t[2][1] == ("const", "0")
+            if t[0] == "agg" and t[1].startswith("StrideIter") and o[0][0] == "agg":
+                # by field name, not position: the declaration order is free
+                rv = c.org.stmt(o[0][1], o[0][2])["rv"]
+                byname = {nm: operand_tree(c, op) for nm, op in zip(rv.get("fields", []), rv["ops"])}
+                ok = byname.get("strided") == ("place", b.key, ("arg", 1), ()) and byname.get("index") == ("const", "0")
         R.check("R-ITER", b.label(), ok, construct="iter() = StrideIter{strided: *self, index: 0}",
                 where=b.where(), detail="")
